@@ -5,7 +5,7 @@ import ast
 from ..engine import rule
 from ..flow import PRUNE, Flags, Soft, Violation, explore, implied_atoms, \
     path_ends, path_is, provenance, raising_node, store_value
-from ..locks import POOL_WRITE, held_locks, step_held
+from ..locks import POOL_WRITE, held_locks, lock_delta, step_held
 from ..model import dotted, walk_local
 from ..twopc import FS
 
@@ -266,10 +266,9 @@ def r3(R):
 
     def edge(node, st, lab, tgt):
         flag, held, tested = st
-        if node.kind == 'acq' and node.info['lock'] == ('self', '_lock'):
-            return (flag, held + 1, False)
-        if node.kind == 'rel' and node.info['lock'] == ('self', '_lock'):
-            return (flag, max(0, held - 1), False)
+        dl = lock_delta(F, node)
+        if dl:
+            return (flag, max(0, held + dl), False)
         if node.kind == 'test' and lab in ('T', 'F'):
             for e, truth in implied_atoms(node.ast, lab):
                 if dotted(e) and F.canon(e, node.frame) == (
